@@ -34,6 +34,9 @@ func (p *Program) Print() string {
 
 type printer struct {
 	sb *strings.Builder
+	// templ's parser needs whitespace after an unquoted attribute value
+	// (`<a id=v>` is rejected, `<a id=v >` is accepted)
+	lastUnquoted bool
 }
 
 func (pr *printer) sep(s Sep, depth int) {
@@ -76,7 +79,8 @@ func unquotedOK(val string) bool {
 
 func (pr *printer) attrs(as []*Attr, depth int, nl bool) {
 	w := pr.sb
-	for _, a := range as {
+	for i, a := range as {
+		pr.lastUnquoted = false
 		if nl {
 			w.WriteString("\n" + strings.Repeat("\t", depth+1))
 		} else {
@@ -90,6 +94,7 @@ func (pr *printer) attrs(as []*Attr, depth int, nl bool) {
 			}
 			if q == 0 {
 				w.WriteString(a.Name + "=" + a.Val)
+				pr.lastUnquoted = i == len(as)-1
 			} else {
 				w.WriteString(a.Name + "=" + quoteAttr(a.Val, q))
 			}
@@ -144,9 +149,12 @@ func (pr *printer) node(n *Node, depth int) {
 		}
 	case KElem:
 		w.WriteString("<" + n.Name)
+		pr.lastUnquoted = false
 		pr.attrs(n.Attrs, depth, n.AttrsNL)
 		if n.AttrsNL {
 			w.WriteString("\n" + strings.Repeat("\t", depth))
+		} else if pr.lastUnquoted {
+			w.WriteString(" ")
 		}
 		if n.SelfClose {
 			w.WriteString("/>")
